@@ -378,7 +378,12 @@ def _model_removal(ctx):
             if not site:
                 continue
             count += 1
-            env = K.func_env(func)
+            env = {}
+            for asg in K.walk_no_nested(func.node):
+                if isinstance(asg, ast.Assign) and len(asg.targets) == 1 \
+                        and isinstance(asg.targets[0], ast.Name):
+                    env.setdefault(asg.targets[0].id, []).append(asg.value)
+            env = dict((k, v[0]) for k, v in env.items() if len(v) == 1)
             lookups = ('self.apps[%s]' % key, 'self.apps.get(%s)' % key)
 
             def releases(edge):
